@@ -13,7 +13,8 @@ import json
 from .core import Ambiguous, cmeta, tag
 
 SIZES = (0, 1, 2, 3, 4, 5, 6)
-WINDOWS = [(a, b) for a in range(0, 8) for b in range(a, 8)]
+WINDOWS = [(a, b) for a in range(0, 8) for b in range(a, 8)] + [
+    (0, 10), (8, 40), (9, 18), (17, 18), (0, 1001), (1000, 1001), (33, 2**31), (0, 2**31 + 1), (2**31 - 1, 10**13)]
 
 
 def jcopy(x):
@@ -391,13 +392,14 @@ class Model:
     def _filt(self, size, up):
         return [k for k in self.edges if (self.ksize(k) <= size if up else self.ksize(k) == size)]
 
-    def observe(self, universe, probe_keys):
+    def observe(self, universe, probe_keys, sizes=None):
         """Everything the property lists as a query, as one canonical dict.  The set of
         keys must coincide with observe.observe() for the same kind."""
         k = self.kind
         ce = self.cedge
         E = self.edges
         o = {}
+        SZ = sizes or SIZES
         o["nodes"] = sorted(tag(n) for n in self.nodes)
         o["nodes_md"] = {tag(n): cmeta(md) for n, md in self.nodes.items()}
         o["edges"] = sorted(ce(q) for q in E)
@@ -441,7 +443,7 @@ class Model:
         for d in o["deg"].values():
             dd[str(d)] = dd.get(str(d), 0) + 1
         o["degdist"] = dd
-        for s in SIZES:
+        for s in SZ:
             for up in (False, True):
                 sel = self._filt(s, up)
                 name = f"size={s}/up={int(up)}"
@@ -467,7 +469,7 @@ class Model:
             o["tgt_edges"] = {tag(n): sorted(ce(q) for q in E if n in q[1]) for n in self.nodes}
             o["in_deg"] = {tag(n): sum(1 for q in E if n in q[0]) for n in self.nodes}
             o["out_deg"] = {tag(n): sum(1 for q in E if n in q[1]) for n in self.nodes}
-            for s in SIZES:
+            for s in SZ:
                 sel = self._filt(s, False)
                 o[f"src_edges/size={s}"] = {tag(n): sorted(ce(q) for q in sel if n in q[0]) for n in self.nodes}
                 o[f"tgt_edges/size={s}"] = {tag(n): sorted(ce(q) for q in sel if n in q[1]) for n in self.nodes}
